@@ -14,7 +14,8 @@ CORR = "corr:C13:evo"
 def run(ctx):
     quick = ctx.quick()
     npairs = 2 if quick else 10
-    evo = evolution_specs(ctx, npairs)
+    bins0, berr0 = build_tools(ctx.scratch)
+    evo = evolution_specs(ctx, npairs, None if berr0 else bins0)
     cres, thm, ref, ref_err, bins, berr, units = common_setup(ctx, PROPS, 2 if quick else 30, evo + [wide_spec(ctx)])
     nrand = 3 if quick else 30
     ntl1 = 3 if quick else 30
